@@ -1545,3 +1545,4 @@ UNITS += [("C11.fill_spec.diffusion_coefficients_corrected_with_the_cell's_own_f
 
 UNITS = [(uid, fast_twin(f)) for uid, f in UNITS]
 from props.c11_ext3 import UNITS as _U3; UNITS = UNITS + _U3
+from props.c11_ext4 import UNITS as _U4; UNITS = UNITS + _U4
